@@ -23,6 +23,7 @@ inductive AOp where
   | ensureCapacity (k n : Nat)
   | pushTailFrom (k j lo : Nat)
   | bufFromView (k j : Nat)
+  | cloneFromSliceFrom (k j : Nat)
   | overwrite (k : Nat) (ws : List Nat)
   | eraseFront (k n : Nat)
   | fromBuffer (k : Nat)
@@ -42,6 +43,7 @@ def AOp.toOp : AOp → Op
   | .ensureCapacity k n => .ensureCapacity k n
   | .pushTailFrom k j lo => .pushTailFrom k j lo
   | .bufFromView k j => .bufFromView k j
+  | .cloneFromSliceFrom k j => .cloneFromSliceFrom k j
   | .overwrite k ws => .overwrite k ws
   | .eraseFront k n => .eraseFront k n
   | .fromBuffer k => .fromBuffer k
@@ -228,6 +230,66 @@ def fragMul (sqrSimple : Nat) (f : Form) (a b : List Nat) : Frag :=
       { ops := [.allocate 2 n, .pushZeros 2 n] ++ (if scratch > 0 then [.allocScratch 3 scratch] else []) ++
                [.overwrite 2 (toWords W n (va * vb)), .fromBuffer 2] ++ (if scratch > 0 then [.drop 3] else []),
         cleanup := (if bVal then [.drop 1] else []) ++ (if aVal then [.drop 0] else []) }
+  { fr with ops := pre ++ fr.ops }
+
+/-- `div_rem_in_lhs` + tail of `div_large` / `rem_large` on `lhs` in register `lr`, `rhs` in register `rr`
+    (both ≥ 3 words, `la ≥ lb`; sizes without scratch block: `lb ≤ 32` or `la - lb ≤ 32`) -/
+def fDivRemLarge (wantRem : Bool) (lr rr la lb va vb : Nat) : Frag :=
+  let q := va / vb
+  let rm := va % vb
+  let shift := W * lb - (Nat.log2 vb + 1)
+  let common : List AOp :=
+    [.overwrite rr (toWords W lb (vb * 2 ^ shift)),                                   -- `div::normalize(rhs)`
+     .overwrite lr (toWords W lb (rm * 2 ^ shift) ++ toWords W (la - lb) q),          -- `[lhs % rhs, lhs / rhs]`
+     .pushResizing lr (q / 2 ^ (W * (la - lb)))]                                      -- `push_resizing(quo_carry)`
+  if wantRem then
+    { ops := common ++ [.overwrite rr (toWords W lb rm), .fromBuffer rr], cleanup := [.drop lr], res := rr }
+  else
+    { ops := common ++ [.eraseFront lr lb, .fromBuffer lr], cleanup := [.drop rr], res := lr }
+
+/-- `UBig / UBig` and `UBig % UBig` (truncating; `wantRem` selects `%`) -/
+def fragDivRem (wantRem : Bool) (f : Form) (a b : List Nat) : Frag :=
+  let la := a.length; let lb := b.length; let va := wval W a; let vb := wval W b
+  let pre : List AOp := match f with
+    | .rr => [] | .rv => [.intoTyped 1] | .vr => [.intoTyped 0] | .vv => [.intoTyped 0, .intoTyped 1]
+  let aVal := f == .vr || f == .vv
+  let bVal := f == .rv || f == .vv
+  let dz : Option Dashu.Model.PanicKind := some .divideByZero
+  let dropVals : List AOp := (if bVal then [.drop 1] else []) ++ (if aVal then [.drop 0] else [])
+  let fr : Frag :=
+    if isSmall a && isSmall b then
+      if vb = 0 then { ops := [], panic := dz }
+      else
+        let r := if wantRem then va % vb else va / vb
+        { ops := [.fromDword 2 (r % 2 ^ W) (r / 2 ^ W)] }
+    else if isSmall a then
+      -- `(Small(_), Large(_)) => Repr::zero()` / `Repr::from_dword(dword0)`
+      { ops := [if wantRem then .fromDword 2 (va % 2 ^ W) (va / 2 ^ W) else .fromWord 2 0],
+        cleanup := if bVal then [.drop 1] else [] }
+    else if isSmall b then
+      if wantRem then
+        -- `rem_large_dword(&buffer0 | words0, d)`: no copy; a by-value lhs is dropped afterwards
+        if vb = 0 then { ops := [], panic := dz, cleanup := if aVal then [.drop 0] else [] }
+        else { ops := [.fromDword 2 ((va % vb) % 2 ^ W) ((va % vb) / 2 ^ W)], cleanup := if aVal then [.drop 0] else [] }
+      else
+        let r := if aVal then 0 else 2
+        let cp : List AOp := if aVal then [] else [.bufFromView 2 0]
+        if vb = 0 then { ops := cp, panic := dz, cleanup := [.drop r] }
+        else { ops := cp ++ [.overwrite r (toWords W la (va / vb)), .fromBuffer r], res := r }
+    else if la < lb then
+      if wantRem then
+        match f with
+        | .vv => { ops := [.fromBuffer 0], cleanup := [.drop 1], res := 0 }
+        | .vr => { ops := [.fromBuffer 0], res := 0 }
+        | .rv => { ops := [.cloneFromSliceFrom 1 0, .fromBuffer 1], res := 1 }
+        | .rr => { ops := [.bufFromView 2 0, .fromBuffer 2] }
+      else { ops := [.fromWord 2 0], cleanup := dropVals }
+    else
+      let lr := if aVal then 0 else 2
+      let rr := if bVal then 1 else 3
+      let cp : List AOp := (if aVal then [] else [.bufFromView 2 0]) ++ (if bVal then [] else [.bufFromView 3 1])
+      let fr := fDivRemLarge W wantRem lr rr la lb va vb
+      { fr with ops := cp ++ fr.ops }
   { fr with ops := pre ++ fr.ops }
 
 /-- `UBig << n` (`by value` = `f = vv`, by reference = `f = rr`) -/
